@@ -210,16 +210,9 @@
 ;;> Returns true iff \var{suffix} is a suffix of \var{str}.
 
 (define (string-suffix? suffix str)
-  (let ((diff (- (string-size str) (string-size suffix))))
-    (and (>= diff 0)
-         (string-cursor=? (string-cursor-prev suffix
-                                              (string-cursor-start suffix))
-                          (string-cursor-back
-                           str
-                           (call-with-values
-                               (lambda () (string-mismatch-right suffix str))
-                             (lambda (i j) j))
-                           diff)))))
+  (and (>= (string-size str) (string-size suffix))
+       (call-with-values (lambda () (string-mismatch-right suffix str))
+         (lambda (i j) (string-cursor<? i (string-cursor-start suffix))))))
 
 ;;> The fundamental string iterator.  Calls \var{kons} on each
 ;;> character of \var{str} and an accumulator, starting with
